@@ -159,38 +159,41 @@ Section Multilevel.
     end.
 End Multilevel.
 
-  (* the consumed-item loop of generic.diff_lists; [subdiff] already includes the atomic test *)
+  (* the "for k in range(n)" loops of diff_lists and compute_diff_from_snakes: sub-diff item pairs
+   a[i+k], b[j+k] and add a patch entry for each non-empty result *)
+Fixpoint patch_items (subdiff : json -> json -> res (list dentry)) (a b : list json)
+         (i j k n : nat) (di : list dentry) {struct n} : res (list dentry) :=
+  match n with
+  | 0 => Ok di
+  | S n' =>
+      do aval <- nth_res a (i + k);
+      do bval <- nth_res b (j + k);
+      do cd <- subdiff aval bval;
+      patch_items subdiff a b i j (S k) n' (b_patch di (i + k) cd)
+  end.
+
+(* the consumed-item loop of generic.diff_lists; [subdiff] already includes the atomic test *)
 Fixpoint diff_lists_loop (subdiff : json -> json -> res (list dentry)) (a b : list json)
                        (shallow : list dentry) (i j : nat) (di : list dentry) {struct shallow}
     : res (list dentry) :=
-    let patch_items :=
-      fix patch_items (k n : nat) (di : list dentry) {struct n} : res (list dentry) :=
-        match n with
-        | 0 => Ok di
-        | S n' =>
-            do aval <- nth_res a (i + k);
-            do bval <- nth_res b (j + k);
-            do cd <- subdiff aval bval;
-            patch_items (S k) n' (b_patch di (i + k) cd)
-        end in
     match shallow with
     | [] =>
         (* n = len(a) - i; assert n >= 0; assert len(b) - j == n *)
         if Nat.ltb (length a) i then Err AssertionError else
         let n := length a - i in
         if negb (Z.eqb (Z.of_nat (length b) - Z.of_nat j) (Z.of_nat n)) then Err AssertionError else
-        do di <- patch_items 0 n di;
-        Ok di     (* final asserts i == len(a), j == len(b) hold by the two above *)
+        patch_items subdiff a b i j 0 n di
+        (* the final asserts i == len(a), j == len(b) hold by the two above *)
     | e :: rest =>
         let index := knat e in
         let n := index - i in
         do sk <- count_consumed e;
         let '(askip, bskip) := sk in
-        do di <- patch_items 0 n di;
+        do di <- patch_items subdiff a b i j 0 n di;
         diff_lists_loop subdiff a b rest (i + n + askip) (j + n + bskip) (seq_append di e)
     end.
 
-  (* snakes.compute_diff_from_snakes; [snakes] already carries the (i1, j1, 0) sentinel *)
+(* snakes.compute_diff_from_snakes; [snakes] already carries the (i1, j1, 0) sentinel *)
 Fixpoint diff_from_snakes (diffit : json -> json -> res (list dentry)) (a b : list json)
                         (snakes : list snake) (i0 j0 : nat) (di : list dentry) {struct snakes}
     : res (list dentry) :=
@@ -199,17 +202,7 @@ Fixpoint diff_from_snakes (diffit : json -> json -> res (list dentry)) (a b : li
     | (i, j, n) :: rest =>
         let di := if Nat.ltb i0 i then b_removerange di i0 (i - i0) else di in
         let di := if Nat.ltb j0 j then b_addrange di i0 (VList (slice b j0 j)) else di in
-        let items :=
-          fix items (k n : nat) (di : list dentry) {struct n} : res (list dentry) :=
-            match n with
-            | 0 => Ok di
-            | S n' =>
-                do aval <- nth_res a (i + k);
-                do bval <- nth_res b (j + k);
-                do cd <- diffit aval bval;
-                items (S k) n' (b_patch di (i + k) cd)
-            end in
-        do di <- items 0 n di;
+        do di <- patch_items diffit a b i j 0 n di;
         diff_from_snakes diffit a b rest (i + n) (j + n) di
     end.
 
